@@ -39,7 +39,8 @@ class SWorld(CWorld):
         cls = c.get('cls') or ''
         if k == 'Ctor' and 'CollectionClearGuard' in cls:
             return 'GUARD'          # clears the caches when the sort is over: C06-R1 looks at that
-        if k == 'Call' and n == 'stable_sort' and len(c['args']) == 3:
+        if k == 'Call' and n in ('stable_sort', 'sort') and len(c['args']) == 3:
+            unstable = n == 'sort'      # std::sort may leave equal elements in any order: modelled by the legal outcome that reverses them
             b, e, comp = (m.ev(x) for x in c['args'])
             body = [a for a in self.facts.asts('NodeSorter::NodeSortKeyCompare::operator()', must=False) if a.get('body') is not None]
             if len(body) != 1:
@@ -48,7 +49,8 @@ class SWorld(CWorld):
             out = []
             for x in items:                     # insertion sort, stable: x goes after every element it is not less than
                 pos = len(out)
-                while pos > 0 and m.run_body(body[0], [x, out[pos - 1], 0][:len(body[0]['params'])], comp):
+                while pos > 0 and (m.run_body(body[0], [x, out[pos - 1], 0][:len(body[0]['params'])], comp) or
+                                   (unstable and not m.run_body(body[0], [out[pos - 1], x, 0][:len(body[0]['params'])], comp))):
                     pos -= 1
                 out.insert(pos, x)
             b.vec.items[b.i:e.i] = out
